@@ -79,7 +79,7 @@ var chainArgs4 = map[string][][]string{
 	"mtu":           {{"1500"}, {"9000"}},
 	"staticroute":   {{"10.20.20.0/24,10.10.10.1"}, {"0.0.0.0/0,10.10.10.1", "10.30.0.0/16,10.10.10.2"}},
 	"searchdomains": {{"a.example", "b.example.org"}, {"example.com"}},
-	"nbp":           {{"tftp://10.10.10.1/boot.img"}, {"http://10.10.10.1/ipxe.efi"}},
+	"nbp":           {{"tftp://10.10.10.7/boot.img"}, {"http://10.10.10.8/ipxe.efi"}, {"tftp://boot.example.org/x"}},
 	"ipv6only":      {{"300s"}, {}},
 	"autoconfigure": {{"1"}, {"DoNotAutoConfigure"}, {}},
 	"sleep":         {{"100us"}, {"0s"}},
